@@ -209,6 +209,34 @@ def self_model_class(cls):
     return _SELF_MODEL[cls]
 
 
+class EmptyModel(RecModel9):
+    """a model that is also an (empty) container: `bool(model)` is False, always"""
+
+    def __len__(self):
+        return 0
+
+
+class FalseModel(RecModel9):
+    """a model whose `__bool__` answers False, always"""
+
+    def __bool__(self):
+        return False
+
+
+class DrainedModel(RecModel9):
+    """a container-like model that is emptied by the callbacks which run BEFORE its state change (prepare_event …
+    before) and refilled by those that run after it (after … finalize_event): falsy exactly while its state changes"""
+    _stock = 1
+
+    def __len__(self):
+        return self._stock
+
+
+FALSY_MODELS = {1: EmptyModel, 2: FalseModel, 3: DrainedModel}
+DRAIN_SLOTS = tuple(SLOT[n] for n in ('prepare_event', 'prepare', 'conditions', 'unless', 'before_state_change', 'before'))
+REFILL_SLOTS = tuple(SLOT[n] for n in ('after', 'after_state_change', 'finalize_event'))
+
+
 class Run9(flat.FlatRun):
     """FlatRun for any of the 12 classes: constant (deterministic) conditions, coroutine callbacks and an awaiting
     driver on async classes, exception TYPE names recorded next to the canonical kinds."""
@@ -230,7 +258,9 @@ class Run9(flat.FlatRun):
         self.cls = cls
         named = [c[1] for c in desc.history if c[0] in (REMOVE, ADD, TRIGGER, MAY)]
         named += [c[1] for cmds, _o in desc.script.values() for c in cmds]
-        self.model_objs = {m: RecModel9(m, self) for m in range(0, max(list(desc.models) + named + [3]) + 1)}
+        falsy = dict(tuple(x) for x in getattr(desc, 'falsy', ()) or ())
+        self.model_objs = {m: FALSY_MODELS.get(falsy.get(m), RecModel9)(m, self)
+                           for m in range(0, max(list(desc.models) + named + [3]) + 1)}
         self.machine = self.build(kwargs or {})
 
     # -- construction ------------------------------------------------------------------------
@@ -305,6 +335,11 @@ class Run9(flat.FlatRun):
         k = self.counts.get(cid, 0)
         self.counts[cid] = k + 1
         self.items.append(('call', slot, cid, model._mid, tag, self.state_id(model)))
+        if isinstance(model, DrainedModel):
+            if slot in DRAIN_SLOTS:
+                model._stock = 0
+            elif slot in REFILL_SLOTS:
+                model._stock = 1
         if cid in self.const:
             return (), self.const[cid]
         return self.d.script.get((cid, k), ((), ('ret', True)))
@@ -551,6 +586,11 @@ STREAMS = {
     'polls': dict(knobs=_k(max_models=2, p_raise=0.04, p_cmds=0.15, p_on_exception=0.3, p_queued=0.3, max_history=10,
                            hist_kinds=(TRIGGER, TRIGGER, MAY, MAY), cmd_kinds=(TRIGGER, MAY)),
                   steer='steer_reads', quick=(16, 8), thorough=(32, 60)),
+    # several models on one machine of which some are FALSY objects (empty containers, `__bool__` False — always, or only
+    # while their state changes); every model's state is read after every command
+    'falsy': dict(knobs=_k(max_models=3, p_raise=0.03, p_cmds=0.2, p_on_exception=0.2, p_queued=0.3, max_history=8,
+                           cmd_kinds=(TRIGGER, TRIGGER, MAY), hist_kinds=(TRIGGER, TRIGGER, TRIGGER, DISPATCH, MAY)),
+                  steer='steer_falsy', sync_only_cmds=(DISPATCH,), quick=(16, 8), thorough=(32, 60)),
     # a removed model keeps its triggers (Machine.remove_model): remove_model(m), add_model(another one), then m fires
     # events — the per-model side tables of the mixins (graphs, lock contexts, queues) must not get in the way
     'orphan': dict(knobs=_k(max_models=3, max_states=4, p_raise=0.03, p_cmds=0.15, p_on_exception=0.2, p_queued=0.3,
@@ -603,6 +643,21 @@ def steer_orphan(d, rng):
     mid = d.history[pos:]
     cut = rng.randint(0, len(mid))
     d.history = d.history[:pos] + [(REMOVE, m, 0)] + mid[:cut] + [(ADD, k, 0)] + mid[cut:] + fire
+    return d
+
+
+def steer_falsy(d, rng):
+    """2-3 models, commands spread over them, one or two of them falsy objects; states read after every command"""
+    n = max(len(d.models), rng.randint(2, 3))
+    d.models = list(range(n))
+
+    def spread(c):
+        return (c[0], rng.choice(d.models), c[2]) if c[0] in (TRIGGER, MAY) else c
+    d.history = [spread(c) for c in d.history]
+    for key, (cmds, out) in list(d.script.items()):
+        d.script[key] = ([spread(c) for c in cmds], out)
+    d.falsy = [[m, rng.choice((1, 2, 3, 3))] for m in rng.sample(d.models, rng.randint(1, 2))]
+    d.reads = True
     return d
 
 
@@ -678,6 +733,10 @@ def decorated(stream, d, rng):
     for key in list(d.script):
         cmds, out = d.script[key]
         cmds = [c for c in cmds if c[0] not in drop]
+        if out[0] == 'raise' and out[1] in (11, 12):
+            # StopIteration / StopAsyncIteration cannot leave a coroutine frame (PEP 479 turns them into RuntimeError):
+            # language semantics, not the library's — the async copy scripts another builtin type (IndexError)
+            out = ('raise', 8, out[2])
         if key[0] in d.const:
             del d.script[key]
             continue
@@ -753,11 +812,36 @@ def compare(d, ref, run, name):
             'exception_types': {'Machine': oe[:6], name: ce[:6]} if oe != ce else {}}
 
 
+class NotBuilt(object):
+    """stand-in for the run of a class whose construction raised"""
+    hang = False
+    items = ()
+    reads = ()
+    exc_names = ()
+    bad = ()
+    leftover = 0
+
+    def final(self):
+        return [], {}
+
+
 def judge(case, ref=None, d=None):
     """case = {'stream', 'desc', 'cls', 'via'} -> ([Failure], run, ref)"""
     d = d or aflat.from_json(case['desc'])
     ref = ref or reference(d)
-    run = run_class(d, case['cls'], case['via'])
+    try:
+        run = run_class(d, case['cls'], case['via'])
+    except (common.MachineryError, KeyboardInterrupt):
+        raise
+    except BaseException as e:      # noqa
+        # `Machine` was built from this description and ran it; the class cannot even be constructed / driven
+        import traceback
+        run = NotBuilt()
+        where = traceback.extract_tb(e.__traceback__)[-1]
+        return [Failure('monitor', 'class-cannot-run-what-Machine-runs', case,
+                        {'class': case['cls'], 'raises': type(e).__name__, 'message': str(e)[:120],
+                         'at': '%s:%d %s' % (os.path.basename(where.filename), where.lineno, where.name)},
+                        signature='C09.class-cannot-run-what-Machine-runs')], run, ref
     out = []
     diff = compare(d, ref, run, case['cls'])
     if diff is not None:
@@ -935,7 +1019,8 @@ class C09(runner.Check):
             '(callbacks that trigger events on the same / other / unregistered models, remove models, raise; queued and '
             'unqueued), a membership stream (add_model / remove_model / dispatch from callers and callbacks), the same '
             'configurations built incrementally (add_states / add_transition after the models are attached), the machine as '
-            'its own model, read-only API between the events (may_<event> / may_trigger polls in histories and callbacks; '
+            'its own model, several models of which some are falsy objects (__len__ == 0 / __bool__ False, always or only '
+            'while their state changes), read-only API between the events (may_<event> / may_trigger polls in histories and callbacks; '
             'get_triggers / get_transitions / is_<state> / get_model_state reads after every command), a removed model that '
             'keeps firing events after another model was added, and an unqueued '
             're-trigger stream on one model (+ a malformed stream with unregistered destinations, model '
@@ -968,6 +1053,8 @@ class C09(runner.Check):
             'instead of ValueError when an unregistered model is removed (normalised by the harness); '
             'LockedGraphMachine.add_model takes no model_context (not used)',
             'locked classes run on one thread under a watchdog; thread schedules are C06\'s business',
+            'StopIteration / StopAsyncIteration raised by a callback cannot leave a coroutine frame (PEP 479: RuntimeError): '
+            'language semantics — the async copy of a description scripts IndexError instead',
             'hierarchical classes: only the depth-1 collapse of NestedTransition._change_state is modelled in Lean '
             '(Model/HsmFlat.lean, tied by trace equality); the rest of the nested engine on flat configurations is decided '
             'by the differential; no difference is listed as known (a return of the re-trigger defect fixed in /repo '
@@ -1057,11 +1144,16 @@ class C09(runner.Check):
 
     def rejudge_corr(self, case):
         d = aflat.from_json(case['desc'])
-        if case['cls'] == 'AsyncMachine':
-            return corr_failures(case['stream'], [], [], {0: d}, {0: run_class(d, 'AsyncMachine', 'name')})
-        if d.const:
+        try:
+            if case['cls'] == 'AsyncMachine':
+                return corr_failures(case['stream'], [], [], {0: d}, {0: run_class(d, 'AsyncMachine', 'name')})
+            if d.const:
+                return []
+            hruns = {0: run_class(d, 'HierarchicalMachine', 'name')} if case['cls'] == 'HierarchicalMachine' else {}
+        except (common.MachineryError, KeyboardInterrupt):
+            raise
+        except BaseException:       # noqa — the class cannot be built: that is the monitor's finding, not a model tie
             return []
-        hruns = {0: run_class(d, 'HierarchicalMachine', 'name')} if case['cls'] == 'HierarchicalMachine' else {}
         return corr_failures(case['stream'], [d], [reference(d)], {}, {}, hruns)
 
     def annotate(self, f):
